@@ -102,6 +102,42 @@ def check(cx):
                    "ctx-snapshot-is-handle-snapshot", f.where(), "reads the handle's snapshot",
                    "TransactionContext::snapshot builds a fresh snapshot instead of returning the transaction's")
 
+    # ---- C04.1b what a snapshot is made of ---------------------------------------------------------------
+    r1b = cx.rule("C04.1b", "FLOW: TransactionCoordinator::snapshot hands Snapshot::new the complete set of Active "
+                  "transactions and the complete set of Aborted ones (the direct results of transaction_set, unfiltered) and "
+                  "the persisted last-committed id as upper bound", floor=3)
+    fs = cx.guard(r1b, "snapshot", p.fn, K.COORD + "::snapshot")
+    if fs:
+        news = [c for c in fs.calls() if c.callee == SNAP + "::new"]
+        ts = K.COORD + "::transaction_set"
+        if not news:
+            cx.bad(r1b, "no-constructor", fs.where(), "snapshot() does not build a Snapshot")
+        for c in news:
+            for idx, nm in ((3, "active"), (4, "aborted")):
+                near = fs.nearest_calls(op_local(c.args[idx]))
+                calls_ = {x for k, x in near if k == "call"}
+                cx.verdict(calls_ == {ts}, r1b, nm + "-set-unfiltered", c.where(), "%s set = transaction_set(..)" % nm,
+                           "the %s set of a new snapshot is produced by %s instead of the complete transaction_set(): "
+                           "transactions dropped from it are treated as committed (dirty reads)" % (nm, sorted(calls_)))
+            near = fs.nearest_calls(op_local(c.args[2]))
+            calls_ = {x for k, x in near if k == "call"}
+            cx.verdict((K.COORD + "::get_last_committed") in calls_, r1b, "upper-bound-is-last-committed", c.where(),
+                       "xmax derives from get_last_committed()", "the snapshot upper bound does not come from the last committed id")
+        # the two state arguments really are Active and Aborted
+        states = []
+        for c in fs.calls():
+            if c.callee == ts:
+                k = None
+                l = op_local(c.args[1])
+                for b in fs.blocks:
+                    for st in b["stmts"]:
+                        if l is not None and st["dst"] == [l] and st["rv"].get("r") == "agg":
+                            k = st["rv"].get("variant")
+                kc = op_const(c.args[1])
+                states.append(k or (kc or {}).get("v"))
+        cx.verdict(sorted(str(x) for x in states) == ["Aborted", "Active"], r1b, "states-active-and-aborted", fs.where(),
+                   "transaction_set(Active) and transaction_set(Aborted)", "snapshot() collects transaction states %s" % states)
+
     # ---- C04.2 snapshot-aware reads -----------------------------------------------------------
     r2 = cx.rule("C04.2", "WMC: the snapshot-unaware decoders/predicates are called only from the frozen list; every "
                  "raw Tuple::from_slice_unchecked is dominated by parse_for_snapshot on the same bytes", floor=9)
